@@ -1111,7 +1111,10 @@ static int ec_at(char *loc, char *cmd, char *arg, char *txt)
 		sbuf_free(r);
 		return ret;
 	}
-	return ex_command(buf);
+	buf = uc_dup(buf);	/* the commands may overwrite the register */
+	beg = ex_command(buf);
+	free(buf);
+	return beg;
 }
 
 static int ec_source(char *loc, char *cmd, char *arg, char *txt)
